@@ -1,6 +1,7 @@
 package rules
 
 import (
+	"go/constant"
 	"fmt"
 	"go/token"
 	"go/types"
@@ -655,6 +656,22 @@ func (d *discharger) loaderChecksFanout2(fn *ssa.Function, checkReturns bool) (b
 		px, py := c.accessPath(core.Unconv(bo.X), 0), c.accessPath(core.Unconv(bo.Y), 0)
 		if strings.Contains(px, "Fanout") && strings.Contains(py, "Fanout") && px != py {
 			return bo.Op == token.EQL, true
+		}
+		// the comparison made by a validator helper: `if err := recv.check(child); err != nil { return … }` where every
+		// return of the helper that may carry a nil error is itself dominated by the fanout equality
+		if x, trueMeansNil, ok := core.NilCmp(cond); ok {
+			var call *ssa.Call
+			switch v := x.(type) {
+			case *ssa.Call:
+				call = v
+			case *ssa.Extract:
+				call, _ = v.Tuple.(*ssa.Call)
+			}
+			if call != nil {
+				if h := call.Call.StaticCallee(); h != nil && h != fn && c.isFanoutValidator(h) {
+					return trueMeansNil, true
+				}
+			}
 		}
 		return false, false
 	}
@@ -1331,6 +1348,62 @@ func (c *Ctx) classifyLoop(fn *ssa.Function, h *ssa.BasicBlock) (bool, string) {
 			}
 		}
 	}
+	// (5) shrinking-width loop: a loop-carried integer i is reduced on every back edge by a step k with 1 <= k (a positive
+	// constant, or 8 - x%8) and every cycle first passes `i < k` (or `i <= k`) whose true edge leaves the loop
+	posStep := func(k ssa.Value) bool {
+		if v, ok := core.ConstInt(k); ok {
+			return v >= 1
+		}
+		if kb, ok := k.(*ssa.BinOp); ok && kb.Op == token.SUB {
+			if c8, ok := core.ConstInt(kb.X); ok && c8 >= 1 {
+				if rem, ok := kb.Y.(*ssa.BinOp); ok && rem.Op == token.REM {
+					if m, ok := core.ConstInt(rem.Y); ok && m >= 1 && m <= c8 {
+						return true
+					}
+				}
+			}
+		}
+		return false
+	}
+	for _, ins := range h.Instrs {
+		phi, ok := ins.(*ssa.Phi)
+		if !ok {
+			break
+		}
+		if !isIntegerType(phi.Type()) {
+			continue
+		}
+		var step ssa.Value
+		nback, allDec := 0, true
+		for i, e := range phi.Edges {
+			if !body[h.Preds[i]] {
+				continue
+			}
+			nback++
+			bo, ok := e.(*ssa.BinOp)
+			if !ok || bo.Op != token.SUB || bo.X != ssa.Value(phi) || !posStep(bo.Y) || (step != nil && step != bo.Y) {
+				allDec = false
+				continue
+			}
+			step = bo.Y
+		}
+		if nback == 0 || !allDec || step == nil {
+			continue
+		}
+		if everyCyclePasses(h, body, func(ins ssa.Instruction) bool {
+			iff, ok := ins.(*ssa.If)
+			if !ok {
+				return false
+			}
+			bo, ok := iff.Cond.(*ssa.BinOp)
+			if !ok || (bo.Op != token.LSS && bo.Op != token.LEQ) || bo.X != ssa.Value(phi) || bo.Y != step {
+				return false
+			}
+			return !body[iff.Block().Succs[0]]
+		}) {
+			return true, "shrinking-width loop: the remaining width decreases by a step in 1..8 on every iteration and the loop is left once it is not larger than the step"
+		}
+	}
 	return false, "unrecognised loop shape"
 }
 
@@ -1591,9 +1664,15 @@ func (c *Ctx) mayReturnNilOK(fn *ssa.Function) []int {
 		return nil
 	}
 	errIdx := core.ErrResultIndex(fn.Signature)
+	// comma-ok form: without an error result, a trailing bool result is the status; nil together with a constant false is a
+	// reported failure like nil together with an error
+	okIdx := -1
+	if n := fn.Signature.Results().Len(); errIdx < 0 && n >= 2 && isBasic(fn.Signature.Results().At(n-1).Type(), types.Bool) {
+		okIdx = n - 1
+	}
 	var out []int
 	for i := 0; i < fn.Signature.Results().Len(); i++ {
-		if i == errIdx || !nilable(fn.Signature.Results().At(i).Type()) {
+		if i == errIdx || i == okIdx || !nilable(fn.Signature.Results().At(i).Type()) {
 			continue
 		}
 		if _, isSlice := fn.Signature.Results().At(i).Type().Underlying().(*types.Slice); isSlice {
@@ -1601,6 +1680,11 @@ func (c *Ctx) mayReturnNilOK(fn *ssa.Function) []int {
 		}
 		for _, ret := range core.Returns(fn) {
 			rr := core.ResolvedResults(ret)
+			if okIdx >= 0 {
+				if cst, isC := rr[okIdx].(*ssa.Const); isC && cst.Value != nil && cst.Value.Kind() == constant.Bool && !constant.BoolVal(cst.Value) {
+					continue
+				}
+			}
 			if core.IsNilConst(rr[i]) && (errIdx < 0 || core.IsNilConst(rr[errIdx])) {
 				out = append(out, i)
 				break
@@ -1692,4 +1776,42 @@ func (c *Ctx) checkNilResults() {
 		}
 	}
 	r.Floor("R13.7", n, 1)
+}
+
+// isFanoutValidator: h has an error result and each of its returns that may carry a nil error is dominated by an equality
+// between two different Fanout access paths (the child's and the parent's).
+func (c *Ctx) isFanoutValidator(h *ssa.Function) bool {
+	if len(h.Blocks) == 0 {
+		return false
+	}
+	if _, isRepo := c.P.PkgOf(h); !isRepo {
+		return false
+	}
+	errIdx := core.ErrResultIndex(h.Signature)
+	if errIdx < 0 {
+		return false
+	}
+	cmp := func(cond ssa.Value) (bool, bool) {
+		bo, ok := cond.(*ssa.BinOp)
+		if !ok || (bo.Op != token.EQL && bo.Op != token.NEQ) {
+			return false, false
+		}
+		px, py := c.accessPath(core.Unconv(bo.X), 0), c.accessPath(core.Unconv(bo.Y), 0)
+		if strings.Contains(px, "Fanout") && strings.Contains(py, "Fanout") && px != py {
+			return bo.Op == token.EQL, true
+		}
+		return false, false
+	}
+	n := 0
+	for _, ret := range core.Returns(h) {
+		ev := core.ResolvedResults(ret)[errIdx]
+		if core.ErrKnownNonNil(ev, nil) {
+			continue
+		}
+		n++
+		if !core.GuardedBy(ret.Block(), cmp) {
+			return false
+		}
+	}
+	return n > 0
 }
